@@ -45,6 +45,14 @@ fn verify_sig_all_ways(sig: &Signature, pubk: &SignedPublicKey, datas: &[&[u8]])
         pgp::ser::Serialize::to_writer(&pgp::packet::Packet::from(sig.clone()), &mut bin).map_err(|e| e.to_string())?;
         let ds3 = DetachedSignature::from_bytes(&bin[..]).map_err(|e| format!("detached from_bytes: {e}"))?;
         ds3.verify(pubk, d).map_err(|e| format!("DetachedSignature::verify after binary: {e}"))?;
+        // message_prefix_verify: the signature packet in front of a literal packet with the content (RFC 9580 10.3), streaming verifier
+        let mut msg = bin.clone();
+        let lb = crate::wire::literal_body(b"", d);
+        msg.extend(crate::wire::frame(true, 11, &[crate::wire::Chunk::Fixed(lb.len())], &lb, lb.len(), false));
+        let mut m = Message::from_bytes(&msg[..]).map_err(|e| format!("prefix-signed message: {e}"))?;
+        let mut o = Vec::new();
+        std::io::Read::read_to_end(&mut m, &mut o).map_err(|e| format!("prefix-signed message: {e}"))?;
+        m.verify(&pubk.primary_key).map_err(|e| format!("Message::verify of the prefix-signed message: {e}"))?;
     }
     Ok(())
 }
